@@ -16,7 +16,7 @@ pub fn def() -> CheckDef {
         id: "C10",
         salt: 0xC10,
         level: "exploration",
-        rule: "random networks x closed plain formulae with closed proper sub-formulae: a random non-empty selection of up to 4 closed sub-formula \
+        rule: "random networks x closed formulae (half of them extended themselves: restricted quantifier domains and a wild-card of their own) with closed proper sub-formulae: a random non-empty selection of up to 4 closed sub-formula \
                occurrences (the same sub-formula twice gets the same label) is replaced by wild-cards bound to the RAW results the library \
                computed for them; the extended entry points on the substituted formula must return the identical BDD as the plain entry points on \
                the original; the plain formula through the extended entry points with an empty context must equal the plain entry points. \
@@ -26,7 +26,7 @@ pub fn def() -> CheckDef {
         cases: |t| if t == Tier::Quick { 4000 } else { 200_000 },
         needs: |t| {
             let m = if t == Tier::Quick { 1 } else { 30 };
-            vec![("distinct_nontrivial", 400 * m), ("ev_cache_hit_wild_card", 500 * m), ("cases_with_two_or_more_replacements", 200 * m), ("cases_with_repeated_label", 30 * m)]
+            vec![("distinct_nontrivial", 400 * m), ("ev_cache_hit_wild_card", 500 * m), ("cases_with_two_or_more_replacements", 200 * m), ("cases_with_repeated_label", 30 * m), ("surrounding_formula_with_domains", 500 * m)]
         },
         run,
         prelude: None,
@@ -76,6 +76,15 @@ fn run(rng: &mut Rng, _idx: u64, tier: Tier) -> CaseOut {
     fopts.max_quant_depth = rng.range(0, 2);
     fopts.hybrids = fopts.max_quant_depth > 0;
     fopts.dup_pct = 25;
+    // half of the surrounding formulae are extended themselves (restricted domains, a wild-card of their own)
+    let with_domains = rng.coin();
+    if with_domains {
+        fopts.max_quant_depth = fopts.max_quant_depth.max(1);
+        fopts.hybrids = true;
+        fopts.domains = vec!["d".to_string(), "e".to_string()];
+        fopts.domain_pct = 50;
+        fopts.wild_props = vec!["base".to_string()];
+    }
     let net = crate::net::gen_net(rng, &nopts);
     let f = gen_formula(rng, &fopts, &net.names);
     let k = f.quant_depth() as u16 + rng.below(2) as u16;
@@ -90,7 +99,15 @@ fn run(rng: &mut Rng, _idx: u64, tier: Tier) -> CaseOut {
     let gtext = g.canon();
     let mut out = CaseOut::new(format!("{}|{}|{}", world.net.to_aeon(), text, gtext));
     hooks_on();
-    let empty: LabelToSetMap = HashMap::new();
+    let mut base_sets = HashMap::new();
+    if with_domains {
+        out.count("surrounding_formula_with_domains");
+        for l in ["d", "e", "base"] {
+            base_sets.insert(l.to_string(), crate::world::gen_explicit_set(rng, &world).0);
+        }
+    }
+    // the context every evaluation of this case starts from (empty for plain surrounding formulae)
+    let empty: LabelToSetMap = lib_context(&world, &sys, &base_sets);
     let detail = |why: &str| case_json(&world, &[text.clone(), gtext.clone()], vec![("replaced", J::arr_str(&picked.iter().map(|(l, s)| format!("%{l}% := {}", s.canon())).collect::<Vec<_>>())), ("why", J::s(why))]);
     macro_rules! get {
         ($call:expr, $what:expr) => {
@@ -108,7 +125,7 @@ fn run(rng: &mut Rng, _idx: u64, tier: Tier) -> CaseOut {
             }
         };
     }
-    let plain = get!(run_ep(Ep::FormulaDirty, &text, &sys, &empty), format!("plain evaluation of `{text}`"));
+    let plain = get!(run_ep(if with_domains { Ep::ExtendedDirty } else { Ep::FormulaDirty }, &text, &sys, &empty), format!("plain evaluation of `{text}`"));
     // plain formula through the extended entry points with an empty context
     for ep in [Ep::ExtendedDirty, Ep::MultipleExtendedDirty] {
         let r = get!(run_ep(ep, &text, &sys, &empty), format!("{} on `{text}`", ep.name()));
@@ -117,7 +134,7 @@ fn run(rng: &mut Rng, _idx: u64, tier: Tier) -> CaseOut {
             return out;
         }
     }
-    let plain_san = get!(run_ep(Ep::Formula, &text, &sys, &empty), "sanitised plain evaluation");
+    let plain_san = get!(run_ep(if with_domains { Ep::Extended } else { Ep::Formula }, &text, &sys, &empty), "sanitised plain evaluation");
     let ext_san = get!(run_ep(Ep::Extended, &text, &sys, &empty), "sanitised extended evaluation with empty context");
     if plain_san != ext_san {
         out.violate("extended entry point with empty context differs from the plain one", format!("sanitised variants on `{text}`"), detail("empty context, sanitised"));
@@ -128,11 +145,11 @@ fn run(rng: &mut Rng, _idx: u64, tier: Tier) -> CaseOut {
         return out;
     }
     // raw results of the replaced sub-formulae
-    let mut ctx: LabelToSetMap = HashMap::new();
+    let mut ctx: LabelToSetMap = empty.clone();
     let unit = sys.graph.unit_colored_vertices();
     let mut nontrivial = false;
     for (label, sub) in &picked {
-        let r = get!(run_ep(Ep::FormulaDirty, &sub.canon(), &sys, &empty), format!("evaluation of the sub-formula `{}`", sub.canon()));
+        let r = get!(run_ep(if with_domains { Ep::ExtendedDirty } else { Ep::FormulaDirty }, &sub.canon(), &sys, &empty), format!("evaluation of the sub-formula `{}`", sub.canon()));
         if !r.is_empty() && &r != unit {
             nontrivial = true;
         }
